@@ -7,7 +7,9 @@ add("C39", "exploration",
     "(Space::members, Group::members) before/after a second processing, returned events, and "
     "catch_unwind around every call; seeded random multi-peer histories + adversarial well-typed "
     "messages",
-    "Stage A builds seeded random histories with 2-4 peers (key bundles, create space/group, "
+    "Stage A builds seeded random histories with 2-4 peers (key bundles with pre-key rotation: "
+    "authors publish 2-4 distinct bundles over time, so older bundle messages are re-delivered "
+    "after newer ones; create space/group, "
     "add/remove members and nested groups at random access levels, publish, repair, peers lagging "
     "behind so that concurrent operations arise); every peer processes every message of the global "
     "log once in causal order and every (peer, message) pair is re-delivered exactly once at a "
@@ -22,9 +24,9 @@ add("C39", "exploration",
     "messages it generated.",
     "Idempotence is judged only for messages whose first processing by that peer returned Ok (a "
     "message that failed first may legitimately apply on the second attempt); a second processing "
-    "that returns an error is recorded, not judged. The statement speaks of group and space state: "
-    "a change of key material (registry of received key bundles, own pre-key secrets) on a second "
-    "processing is recorded, not judged (the extra event it returns is). Digests are canonical (maps sorted; a pure "
+    "that returns an error is recorded, not judged. All persisted state is judged, the key "
+    "registry and pre-key secrets included (space state is assembled from them on every load). "
+    "Digests are canonical (maps sorted; a pure "
     "re-ordering of set-like arrays is recorded, not judged). Local API calls (create/add/remove/"
     "publish/repair) only shape the histories; their errors and panics are recorded, not judged. "
     "Stack overflows / aborts cannot be caught in-process: a dead worker makes the run "
